@@ -2550,6 +2550,11 @@ func (n *Nexthop) decode(data []byte, version uint8, software Software, family u
 // decodeNexthops is referred from decodeFromBytes of NexthopUpdateBody and IPRouteBody
 func decodeNexthops(nexthops *[]Nexthop, data []byte, version uint8, software Software, family uint8, numNexthop uint16, processFlag nexthopProcessFlag, message MessageFlag, apiFlag Flag, nhType nexthopType) (int, error) {
 	offset := 0
+	// every nexthop occupies at least one octet: do not allocate (200 bytes per
+	// nexthop) for a count the remaining data cannot possibly hold
+	if int(numNexthop) > len(data) {
+		return 0, fmt.Errorf("%d nexthops announced but only %d bytes of data left", numNexthop, len(data))
+	}
 	*nexthops = make([]Nexthop, numNexthop)
 	for i := range numNexthop {
 		if len(data) < offset {
